@@ -3,7 +3,9 @@ package props
 import (
 	"bytes"
 	"context"
+	"encoding/binary"
 	"fmt"
+	"github.com/go-netty/go-netty/codec/frame"
 	"math/rand"
 	"sync"
 	"sync/atomic"
@@ -38,7 +40,7 @@ func init() {
 	})
 }
 
-var c12Ops = []string{"Write", "Write1", "Writev", "CtxWrite1", "CtxWritev", "ReadFrom", "Writer().Write", "Trigger", "Close", "IsActive", "Context"}
+var c12Ops = []string{"Write", "Write1", "Writev", "CtxWrite1", "CtxWritev", "ReadFrom", "Writer().Write", "Trigger", "Close", "IsActive", "Context", "Writev(one slice)", "Write([][]byte one slice)"}
 
 type evSink struct {
 	n    int64
@@ -83,6 +85,14 @@ func c12Do(ch netty.Channel, op int, i int, buf []byte) {
 		default:
 		}
 		_ = ch.Context().Err()
+	case 11:
+		ch.Writev([][]byte{buf})
+	case 12:
+		ch.Write([][]byte{buf})
+	}
+	if (op >= 1 && op <= 6) || op == 11 {
+		// the call has returned: the buffer is the caller's again (a low-level write takes a snapshot)
+		buf[i%len(buf)]++
 	}
 }
 
@@ -110,8 +120,20 @@ func c12Pair(c *core.Ctx, mode mon.Mode, a, b, iters int, idleTimers *int64) int
 		wv := [][2]int{{64, 64}, {0, 64}, {64, 0}}[(a*7+b)%3]
 		wrap = &wv
 	}
-	rig := mon.NewRig(mon.RigOpts{Mode: mode, Queue: 2, QuietTail: true, NoHooks: true, Wrap: wrap,
-		Handlers: []netty.Handler{netty.ReadIdleHandler(time.Second), netty.WriteIdleHandler(time.Second), sink}})
+	hs := []netty.Handler{netty.ReadIdleHandler(time.Second), netty.WriteIdleHandler(time.Second), sink}
+	if a == 0 || b == 0 || a == 12 || b == 12 {
+		// messages written through the pipeline pass a shipped frame encoder (one codec instance per channel, called from
+		// every writing goroutine)
+		switch (a*3 + b + int(mode) + 1) % 4 {
+		case 1:
+			hs = append([]netty.Handler{frame.VarintLengthFieldCodec(1 << 20)}, hs...)
+		case 2:
+			hs = append([]netty.Handler{frame.LengthFieldCodec(binary.BigEndian, 1<<20, 0, 4, 0, 4)}, hs...)
+		case 3:
+			hs = append([]netty.Handler{frame.DelimiterCodec(1<<20, "\n", true)}, hs...)
+		}
+	}
+	rig := mon.NewRig(mon.RigOpts{Mode: mode, Queue: 2, QuietTail: true, NoHooks: true, Wrap: wrap, Handlers: hs})
 	defer rig.Dispose()
 	var wg sync.WaitGroup
 	start := make(chan struct{})
